@@ -122,7 +122,14 @@ func (a *Allocation) AddPermission(perms *Permission) {
 func (a *Allocation) RemovePermission(addr net.Addr) {
 	a.permissionsLock.Lock()
 	defer a.permissionsLock.Unlock()
-	delete(a.permissions, ipnet.FingerprintAddr(addr))
+
+	// The permission may already be gone: its own timer and the teardown of the
+	// allocation can both get here. Only the call that removes it reports it.
+	fingerprint := ipnet.FingerprintAddr(addr)
+	if _, ok := a.permissions[fingerprint]; !ok {
+		return
+	}
+	delete(a.permissions, fingerprint)
 
 	if a.eventHandler.OnPermissionDeleted != nil {
 		if u, ok := addr.(*net.UDPAddr); ok {
